@@ -1,2 +1,77 @@
-(* C02 — stub: no theorems yet *)
-From Zap Require Import Base.Wire C02.Model C02.Proofs.
+(* C02 — JSON output decodes to exactly the logged values, in order, at the right nesting.
+   Statements only. *)
+From Coq Require Import List ZArith Bool.
+From Coq.Strings Require Import Byte.
+Import ListNotations.
+From Zap Require Import Base.Wire Enc.Bytes Enc.Decimal Enc.Base64 Enc.Fields Enc.JsonEnc Enc.JsonParse Enc.WireEnc Enc.JsonAst Enc.Wf Enc.MapEnc
+  Enc.Parse1 Enc.Parse3 Enc.Parse4 Enc.MapAgree Enc.Codec C02.Model C02.Proofs.
+
+(* Decoding the emitted line (RFC 8259 parser, strings unescaped, invalid UTF-8 already
+   replaced) yields exactly [jv_mem (entry_members ...)]: the metadata members under the
+   configured keys in the order level, time, name, caller, function, message with the
+   omission rules of [meta_members]; then the context fields of the With chain; then the
+   call-site fields, in the order added; namespaces nest everything that follows at their
+   level; objects, arrays, inline and dict marshalers nest per [ev_fld]; the stack trace
+   last, at top level.  All configurations, chains, entries and field trees. *)
+Theorem C02_decodes : forall c ctxs ent fs,
+  q_nil_caller_guard c = true -> q_layout_escaped c = true ->
+  forallb wf_flds ctxs = true -> wf_flds fs = true -> wf_entry ent = true ->
+  owf_ctxs ctxs -> owf_flds fs -> rend_pre (t_rend (time_val ent)) ->
+  exists out,
+    encode_entry c false (with_chain c false ctxs) ent fs = Some out /\
+    line_obj (resolved_le c) out = Some (jv_mem (entry_members c ctxs ent fs)).
+Proof. exact entry_valid. Qed.
+Print Assumptions C02_decodes.
+
+(* strings are recoverable byte for byte, each invalid UTF-8 byte replaced by U+FFFD; valid ASCII untouched *)
+Theorem C02_string_roundtrip : forall s X f, length (escape s) < f ->
+  p_string f (escape s ++ QUOTE :: X) [] = Some (sanitize s, X).
+Proof. exact string_roundtrip. Qed.
+Print Assumptions C02_string_roundtrip.
+Theorem C02_string_ascii_identity : forall s, forallb (fun b => negb (0x80 <=? bN b)%N) s = true -> sanitize s = s.
+Proof. exact sanitize_ascii. Qed.
+Print Assumptions C02_string_ascii_identity.
+
+(* integers: every integer (in particular the full signed and unsigned 64-bit ranges) is recovered from its text *)
+Theorem C02_int_roundtrip : forall z, parse_Z (print_Z z) = Some z.
+Proof. exact int_roundtrip. Qed.
+Print Assumptions C02_int_roundtrip.
+
+(* binary fields: standard padded base64, decodable to the original bytes *)
+Theorem C02_base64 : forall s, decode64 (encode64 s) = Some s.
+Proof. exact base64_roundtrip. Qed.
+Print Assumptions C02_base64.
+
+(* floats: the token is strconv's text for the value's own bits and bit size (bit-for-bit recovery is
+   strconv's shortest-round-trip guarantee, an assumption the harness monitors); NaN/Inf are strings *)
+Theorem C02_float_token : forall f,
+  jv_of (TA (float_atom f)) =
+  match fcls f with
+  | FFin => JNum (ftxt f)
+  | FNaN => JStr [x4e; x61; x4e] | FPInf => JStr [x2b; x49; x6e; x66] | FNInf => JStr [x2d; x49; x6e; x66]
+  end.
+Proof. exact float_token. Qed.
+Print Assumptions C02_float_token.
+
+(* the in-memory map encoder (model of memory_encoder.go: map + current-namespace pointer, last write
+   wins) records exactly the last-write-wins view of the tree the JSON encoder emits, every typed leaf
+   replaced by its documented JSON representation - for every field tree that contains no reflected
+   value rejected by encoding/json (the map encoder stores such a value raw) *)
+Theorem C02_map_agrees : forall c fs, ok_flds fs ->
+  mmap (leaf_atom c) (MO (map_encode fs)) = viewT (TObj (close (ev_flds c fs octx0))).
+Proof. exact map_agrees. Qed.
+Print Assumptions C02_map_agrees.
+
+(* wire level (line half; the map half is C02_map_agrees, compared on the wire after sorting keys) *)
+Theorem C02_wire : forall i, wf i = true ->
+  owf_ctxs (ec_ctxs (dec_case i)) -> owf_flds (ec_fs (dec_case i)) -> rend_pre (t_rend (time_val (ec_ent (dec_case i)))) ->
+  spec_line i (model i) = true.
+Proof. exact wire_line. Qed.
+Print Assumptions C02_wire.
+
+(* sanity *)
+Example C02_example_int : parse_Z (print_Z (-9223372036854775808)) = Some (-9223372036854775808)%Z /\
+                          parse_Z (print_Z 18446744073709551615) = Some 18446744073709551615%Z.
+Proof. split; vm_compute; reflexivity. Qed.
+Example C02_example_b64 : decode64 (encode64 [x66; x6f; x6f; x62]) = Some [x66; x6f; x6f; x62].
+Proof. vm_compute. reflexivity. Qed.
